@@ -4,41 +4,61 @@ import FxVerif.Model.Util
 # C19 model — IBC transfer middleware (inbound credit, memo call sender, outbound refund, relation record)
 
 Code modelled (fx-core): `x/ibc/middleware/ibc_middleware.go` (`OnRecvPacket`, `OnAcknowledgementPacket`, `OnTimeoutPacket`),
-`x/ibc/middleware/keeper/relay.go`, `ibc_call.go`, `x/ibc/middleware/types/address.go` (`IntermediateSender`),
+`x/ibc/middleware/keeper/relay.go`, `parse.go`, `ibc_call.go`, `x/ibc/middleware/types/address.go` (`IntermediateSender`),
 `x/erc20/keeper/transfer_relation.go` (`IbcRefund`, `SetIBCTransferRelation`, `DeleteIBCTransferRelation`),
-`x/crosschain/keeper/many_to_one.go` (`IBCCoinToBaseCoin`, `IBCCoinToEvm`, `IBCCoinRefund`, `AfterIBCAckSuccess`),
-`x/crosschain/precompile/keeper.go` (`ibcTransfer`).
+`x/erc20/types/keys.go` (`GetIBCTransferKey`), `x/erc20/keeper/msg_server.go` (`ConvertCoin`, native-coin branch),
+`x/crosschain/keeper/many_to_one.go` (`IBCCoinToBaseCoin`, `IBCCoinToEvm`, `IBCCoinRefund`, `AfterIBCAckSuccess`, `ManyToOne`),
+`x/crosschain/precompile/keeper.go` (`ibcTransfer`, `handlerERC20Token`, `handlerOriginToken`).
+Modelled dependency (ibc-go transfer module): un-escrow / mint on receive, un-escrow / re-mint on refund, bank metadata
+written for a voucher on receive; IBC core: commitments, receive committed only on a successful acknowledgement,
+acknowledgement / timeout only while the commitment exists, a failing callback rolls the relayer's transaction back.
 
 Everything whose shape can be read off the AST comes from `FxVerif.Gen.C19` through `genCfg`; the transition function is
 `stepWith cfg` and `step := stepWith genCfg`.
 
-Addresses, channels, sequences and amounts are `Nat`.  Tokens: `F` native coin, `B` the IBC voucher of the channel that
-is registered as an alias of a base denom having an ERC-20 pair (one per channel), `X` an unregistered foreign voucher.
+Channels are named by the number `l` of their LOCAL id `channel-<l>`; the counterparty's id of the same channel is a
+separate number (`cp`), set by `chan l r`.  An inbound packet has source = counterparty end, destination = local end; an
+outbound packet the other way round.
 
-The state is split in `Bal` (balances + memo-call marker) and `Ctl` (packet commitments, relation store, send sequence,
-and three write-only GHOST logs `refundLog`, `ackedOk`, `evmSent` that no transition ever reads).
+Tokens: `F` FX; `N` a native non-FX coin with an ERC-20 pair; `U` a native non-FX coin without a pair; `A` the aliased
+token: a base denom with an ERC-20 pair whose alias on channel `l` is the voucher `vA l`; `V` a foreign voucher with an
+ERC-20 pair of its own; `X` an unregistered foreign voucher.
+
+The state is split in `Bal` (bank balances, ERC-20 balances, memo-call marker and last memo-call sender) and `Ctl`
+(channel table, voucher metadata, packet commitments, relation store, send sequence, and three write-only GHOST logs
+`refundLog`, `ackedOk`, `evmSent` that no transition ever reads).
 
 Simplifications (stated, not hidden):
 * a commitment stores the packet data itself (IBC core stores a hash);
-* `refund` of an `X` packet (never committed: `send X` fails) re-mints the voucher and does no denomination change;
-* `IbcRefund` for `F`: the relation is never present by construction; if it were, the model removes it and logs
-  `erc20Form = true` without further balance change;
-* receivers that are module accounts (blocked in the real bank keeper) are not special-cased.
+* receivers that are module accounts (blocked in the real bank keeper) are not special-cased;
+* an expression the translator does not recognise (`ChanSel.other`, `GuardE.unknown`) makes the model skip the step it
+  guards — every theorem that depends on the step demands the recognised shape, so such a tree fails the proofs.
 -/
 namespace FxVerif.Model.C19
 open FxVerif
+open FxVerif.Gen.C19 (GuardE)
 
 abbrev Addr := Nat
 abbrev Ch := Nat
 abbrev Seq := Nat
 
-inductive Tok where | F | B | X
+inductive Tok where | F | N | U | A | V | X
   deriving DecidableEq, Repr
 
-inductive RKind where | hex | bech
+inductive RKind where | hex | bech | bad
   deriving DecidableEq, Repr
 
 inductive Memo where | none | junk | callok | callrev
+  deriving DecidableEq, Repr
+
+/-- bank denominations -/
+inductive Denom where
+  | fx | nat | unreg | base
+  | vA (l : Ch) | vV (l : Ch) | vX (l : Ch)
+  deriving DecidableEq, Repr
+
+/-- ERC-20 token contracts: of `nat`, of the aliased base denom, of the voucher `vV l` -/
+inductive ETok where | nat | base | v (l : Ch)
   deriving DecidableEq, Repr
 
 /-! ## tiny association-list stores (absent = 0) -/
@@ -59,6 +79,69 @@ def escrow (ch : Ch) : Addr := 1000 + ch
 def transferMod : Addr := 2000
 def erc20Mod : Addr := 2001
 
+/-! ## denominations -/
+
+def Denom.isIbc : Denom → Bool
+  | .vA _ | .vV _ | .vX _ => true
+  | _ => false
+
+/-- name of a native denomination (a voucher's name is `ibc/<hash>`) -/
+def Denom.name? : Denom → Option String
+  | .fx => some "FX" | .nat => some "nat" | .unreg => some "uuu" | .base => some "bo"
+  | _ => none
+
+/-- the denomination a token arrives / leaves in on local channel `l` -/
+def bankDenom : Tok → Ch → Denom
+  | .F, _ => .fx | .N, _ => .nat | .U, _ => .unreg
+  | .A, l => .vA l | .V, l => .vV l | .X, l => .vX l
+
+/-- coins of this chain (escrowed on the way out, un-escrowed on the way home) -/
+def returning : Tok → Bool
+  | .F | .N | .U => true
+  | _ => false
+
+/-- the erc20 module's token pairs -/
+def pairOf : Denom → Option ETok
+  | .nat => some .nat | .base => some .base | .vV l => some (.v l)
+  | _ => none
+
+/-- the ERC-20 contract in which a token of class `t` (moved on channel `l`) is held -/
+def ercTokOf : Tok → Ch → Option ETok
+  | .N, _ => some .nat | .A, _ => some .base | .V, l => some (.v l)
+  | _, _ => none
+
+/-- evaluation of a translated guard on a denomination (no string constant of the code is a voucher hash) -/
+def evalGuard : GuardE → Denom → Bool
+  | .neConst c, d => match d.name? with | some n => n != c | none => true
+  | .eqConst c, d => match d.name? with | some n => n == c | none => false
+  | .hasPrefix p, d => match d.name? with | some n => p.isPrefixOf n | none => p.isPrefixOf "ibc/"
+  | .not g, d => !evalGuard g d
+  | .and a b, d => evalGuard a d && evalGuard b d
+  | .or a b, d => evalGuard a d || evalGuard b d
+  | .tt, _ => true
+  | .unknown _, _ => false
+
+/-! ## which end of the channel an expression names -/
+
+inductive ChanSel where | src | dst | other
+  deriving DecidableEq, Repr
+
+def chanSelOf (e : String) : ChanSel :=
+  if e == "packet.SourceChannel" || e == "packet.GetSourceChannel()" then .src
+  else if e == "packet.DestinationChannel" || e == "packet.GetDestChannel()" then .dst
+  else .other
+
+def seqExprOk (e : String) : Bool := e == "packet.Sequence" || e == "packet.GetSequence()"
+
+def ChanSel.pick : ChanSel → Ch → Ch → Option Ch
+  | .src, s, _ => some s
+  | .dst, _, d => some d
+  | .other, _, _ => none
+
+/-- the relation key a callback computes for a packet with the given source / destination channel and sequence -/
+def keyOf (sel : ChanSel) (seqOk : Bool) (src dst : Ch) (seq : Seq) : Option (Ch × Seq) :=
+  if seqOk then (sel.pick src dst).map (fun c => (c, seq)) else none
+
 /-! ## configuration read from the generated facts -/
 
 structure Cfg where
@@ -71,9 +154,24 @@ structure Cfg where
   refundDeletes : Bool       -- IbcRefund calls DeleteIBCTransferRelation
   refundConverts : Bool      -- IbcRefund calls ConvertCoin
   refundGuarded : Bool       -- `if !Delete(..) { return nil }` in front of ConvertCoin
+  deleteReports : Bool       -- DeleteIBCTransferRelation returns false when there is no record
   recvDiscards : Bool        -- keeper error in OnRecvPacket => error acknowledgement (cache discarded by IBC core)
   recvOrder : Bool           -- middleware OnRecvPacket runs ParseAddress, the transfer app, then the keeper hook
   sendSetsRel : Bool         -- ibcTransfer records the relation for non-origin tokens
+  recvGuard : GuardE         -- Keeper.OnRecvPacket: condition of the "move to the EVM" block
+  recvRequiresHex : Bool     -- that block starts with `if !isEvmAddr { return error }`
+  recvConverts : Bool        -- … and calls IBCCoinToEvm, returning its error
+  recvMemoAfter : Bool       -- the memo block (`len(data.Memo) > 0`) follows the conversion block
+  recvRetChan : ChanSel      -- parseIBCCoinDenom: channel end compared with the denom prefix ("returns home")
+  memoChan : ChanSel         -- channel end that flows into IntermediateSender
+  memoSender : Bool          -- `data.Sender` flows into IntermediateSender's sender
+  ackOkChan : ChanSel        -- channel end / sequence that flow into the key deleted on a success acknowledgement
+  ackOkSeq : Bool
+  refundChan : ChanSel       -- … into the key IbcRefund deletes
+  refundSeq : Bool
+  refundToSender : Bool      -- IbcRefund's ConvertCoin credits the packet's sender
+  sendKeyOwn : Bool          -- ibcTransfer records (channel it transfers on, sequence of the transfer response)
+  aliasFirst : Bool          -- IBCCoinToBaseCoin resolves a registered alias before asking ManyToOne
   deriving DecidableEq, Repr
 
 def genCfg : Cfg where
@@ -86,12 +184,31 @@ def genCfg : Cfg where
   refundDeletes := Gen.C19.ibcRefundCalls.contains "DeleteIBCTransferRelation"
   refundConverts := Gen.C19.ibcRefundCalls.contains "ConvertCoin"
   refundGuarded := Gen.C19.ibcRefundGuardedByDelete
+  deleteReports := Gen.C19.deleteReportsMissing
   recvDiscards := Gen.C19.recvErrorReturnsErrorAck
   recvOrder := Gen.C19.recvCalls == ["ParseAddress", "IBCModule.OnRecvPacket", "Keeper.OnRecvPacket"]
   sendSetsRel := Gen.C19.sendSetsRelationWhenNotOrigin
+  recvGuard := Gen.C19.recvGuard
+  recvRequiresHex := Gen.C19.recvGuardBody.head? == some "requireHex"
+  recvConverts := Gen.C19.recvGuardBody.contains "IBCCoinToEvm" &&
+    Gen.C19.recvToEvmArgs == ["ctx", "receiveCoin", "receiver"]
+  recvMemoAfter := Gen.C19.recvHookOrder == ["convert", "memo:len(data.Memo) > 0"]
+  recvRetChan := chanSelOf Gen.C19.recvReturningChanExpr
+  memoChan := chanSelOf (Gen.C19.memoSenderArgs.getD 1 "")
+  memoSender := Gen.C19.memoSenderArgs.getD 2 "" == "data.Sender" &&
+    Gen.C19.intermediateSenderParams == ["sourcePort", "sourceChannel", "sender"]
+  ackOkChan := chanSelOf Gen.C19.ackSuccessKeyChanExpr
+  ackOkSeq := seqExprOk Gen.C19.ackSuccessKeySeqExpr
+  refundChan := chanSelOf Gen.C19.refundKeyChanExpr
+  refundSeq := seqExprOk Gen.C19.refundKeySeqExpr
+  refundToSender := Gen.C19.refundReceiverExpr == "data.Sender"
+  sendKeyOwn := Gen.C19.sendKeyChanExpr == Gen.C19.sendTransferChanExpr &&
+    Gen.C19.sendKeySeqExpr == Gen.C19.sendResponseVar ++ ".Sequence" &&
+    Gen.C19.relationKeyFmtArgs == ["#0", "#1"]
+  aliasFirst := Gen.C19.ibcCoinToBaseCalls.head? == some "GetBaseDenom"
 
 /-- reference configuration with the success-ack delete prefix as an explicit parameter (tree independent):
-`refCfg 7` is the code as it stands, `refCfg 4` the repaired code -/
+`refCfg 7` is the pinned code, `refCfg 4` the repaired code -/
 def refCfg (ackDel : Nat) : Cfg where
   setPrefix := 4
   refundDelPrefix := 4
@@ -102,11 +219,26 @@ def refCfg (ackDel : Nat) : Cfg where
   refundDeletes := true
   refundConverts := true
   refundGuarded := true
+  deleteReports := true
   recvDiscards := true
   recvOrder := true
   sendSetsRel := true
+  recvGuard := .neConst "FX"
+  recvRequiresHex := true
+  recvConverts := true
+  recvMemoAfter := true
+  recvRetChan := .src
+  memoChan := .src
+  memoSender := true
+  ackOkChan := .src
+  ackOkSeq := true
+  refundChan := .src
+  refundSeq := true
+  refundToSender := true
+  sendKeyOwn := true
+  aliasFirst := false
 
-/-- success ack removes the relation iff AfterIBCAckSuccess is called and deletes under the prefix the record was written -/
+/-- success ack removes a relation iff AfterIBCAckSuccess is called and deletes under the prefix the record was written -/
 def Cfg.ackOkRemoves (cfg : Cfg) : Bool := cfg.ackOkCallsAfter && cfg.ackDelPrefix == cfg.setPrefix
 
 /-- IbcRefund's delete can see a record written by SetIBCTransferRelation -/
@@ -114,10 +246,13 @@ def Cfg.refundSees (cfg : Cfg) : Bool := cfg.refundDeletes && cfg.refundDelPrefi
 
 /-! ## state -/
 
+/-- an outbound packet (its source channel and sequence are the key it is committed under) -/
 structure Pkt where
   sender : Addr
   tok : Tok
   amt : Nat
+  evm : Bool
+  dst : Ch
   deriving DecidableEq, Repr
 
 structure RefundRec where
@@ -141,14 +276,15 @@ def RefundRec.key (r : RefundRec) : Ch × Seq := (r.ch, r.seq)
 def SentRec.key (e : SentRec) : Ch × Seq := (e.ch, e.seq)
 
 structure Bal where
-  fx : Store Addr := []
-  vch : Store (Addr × Tok × Ch) := []     -- IBC voucher coins
-  base : Store (Addr × Ch) := []          -- base coin of the B token of a channel
-  erc : Store (Addr × Ch) := []           -- ERC-20 balance of the B token of a channel
-  marker : Nat := 0                       -- number of successful memo contract calls
+  bank : Store (Addr × Denom) := []
+  erc : Store (Addr × ETok) := []
+  marker : Nat := 0                          -- number of successful memo contract calls
+  caller : Option (Option Ch × Nat) := none  -- pre-image of the last memo-call sender: (channel, original sender)
   deriving DecidableEq, Repr
 
 structure Ctl where
+  cp : List (Ch × Ch) := []                 -- local channel -> counterparty's channel id
+  vmeta : List Ch := []                     -- channels whose aliased voucher has bank metadata of its own
   commits : List ((Ch × Seq) × Pkt) := []   -- IBC core packet commitments
   rel : List (Ch × Seq) := []               -- erc20 IBC-transfer relation store
   next : Store Ch := []                     -- number of sequences used on a channel (next send sequence = this + 1)
@@ -165,6 +301,11 @@ structure State where
 
 def init : State := {}
 
+def cpOf (c : Ctl) (l : Ch) : Ch :=
+  match c.cp.find? (fun p => p.1 == l) with
+  | some p => p.2
+  | none => l
+
 /-! ## operations and observations -/
 
 inductive Mode where | ackOk | ackErr | timeout
@@ -172,100 +313,174 @@ inductive Mode where | ackOk | ackErr | timeout
 
 inductive Op where
   | reset
-  | fund (a : Addr) (t : Tok) (ch : Ch) (amt : Nat)
-  | recv (ch : Ch) (t : Tok) (k : RKind) (to : Addr) (amt : Nat) (m : Memo)
-  | send (ch : Ch) (sender : Addr) (t : Tok) (amt : Nat)
-  | csend (ch : Ch) (sender : Addr) (amt : Nat)
-  | settle (ch : Ch) (seq : Seq) (mode : Mode)     -- `ack c s ok`, `ack c s err`, `timeout c s`
+  | chan (l r : Ch)
+  | vmeta (l : Ch)
+  | migrate                                      -- the transfer module's metadata migration: every stored trace
+  | seqset (l : Ch) (n : Nat)                    -- the next send sequence of channel `l` jumps forward to `n`
+  | fund (a : Addr) (t : Tok) (l : Ch) (amt : Nat)
+  | recv (l : Ch) (t : Tok) (k : RKind) (to : Addr) (amt : Nat) (m : Memo) (snd : Nat)
+  | send (l : Ch) (sender : Addr) (t : Tok) (amt : Nat)
+  | csend (l : Ch) (sender : Addr) (t : Tok) (amt : Nat)
+  | settle (l : Ch) (seq : Seq) (mode : Mode)     -- `ack l s ok`, `ack l s err`, `timeout l s`
   | bad
   deriving DecidableEq, Repr
 
 inductive Out where
   | ok
-  | recv (ackOk : Bool) (fx v b e m : Nat)
-  | sent (seq e fx : Nat) (rel : List (Ch × Seq))
+  | recv (ackOk : Bool) (bk e esc tm sup m : Nat) (cs : Option (Option Ch × Nat))
+  | sent (seq e bk esc tm : Nat) (rel : List (Ch × Seq))
   | fail
   | noop (rel : List (Ch × Seq))
-  | done (e b fx : Nat) (rel : List (Ch × Seq))
+  | stuck (rel : List (Ch × Seq))
+  | done (e bk v esc tm sup : Nat) (rel : List (Ch × Seq))
   | badOp
   deriving DecidableEq, Repr
 
-def Out.isRecv (o : Out) (ack : Bool) : Prop := ∃ fx v b e m, o = .recv ack fx v b e m
-def Out.isDone (o : Out) : Prop := ∃ e b fx rel, o = .done e b fx rel
+def Out.isRecv (o : Out) (ack : Bool) : Prop := ∃ bk e esc tm sup m cs, o = .recv ack bk e esc tm sup m cs
+def Out.isDone (o : Out) : Prop := ∃ e bk v esc tm sup rel, o = .done e bk v esc tm sup rel
+def Out.isStuck (o : Out) : Prop := ∃ rel, o = .stuck rel
+
+/-! ## sums over stores: the supply of an ERC-20 token -/
+
+/-- sum of the values whose key satisfies `p` -/
+def tsum {κ : Type} (p : κ → Bool) (s : Store κ) : Nat := ((s.filter (fun x => p x.1)).map (·.2)).sum
+
+/-- the coin that backs an ERC-20 token -/
+def denomOfE : ETok → Denom
+  | .nat => .nat | .base => .base | .v l => .vV l
+
+/-- supply of ERC-20 token `t`: the sum of all its balances -/
+def supply (t : ETok) (erc : Store (Addr × ETok)) : Nat := tsum (fun k => decide (k.2 = t)) erc
+
+def supplyOf (erc : Store (Addr × ETok)) : Option ETok → Nat
+  | some t => supply t erc
+  | none => 0
+
+/-! ## bank primitives -/
+
+def Bal.move (b : Bal) (d : Denom) (src dst : Addr) (amt : Nat) : Bal :=
+  { b with bank := sadd (ssub b.bank (src, d) amt) (dst, d) amt }
+
+def Bal.mint (b : Bal) (a : Addr) (d : Denom) (amt : Nat) : Bal :=
+  { b with bank := sadd b.bank (a, d) amt }
+
+/-- erc20 `ConvertCoin` (module-owned pair): escrow the coin in the erc20 module account, mint the ERC-20 to `receiver`;
+fails when the denomination has no token pair -/
+def convertCoin (b : Bal) (d : Denom) (holder receiver : Addr) (amt : Nat) : Option Bal :=
+  match pairOf d with
+  | none => none
+  | some t =>
+    if sget b.bank (holder, d) < amt then none
+    else some { b with bank := sadd (ssub b.bank (holder, d) amt) (erc20Mod, d) amt,
+                       erc := sadd b.erc (receiver, t) amt }
+
+/-- `IBCCoinToBaseCoin`: a voucher goes to the transfer module account and `resolved` (what the alias resolution
+returns) is minted to the holder; any other coin is returned as it is -/
+def toBaseCoin (b : Bal) (d resolved : Denom) (holder : Addr) (amt : Nat) : Option (Bal × Denom) :=
+  if !d.isIbc then some (b, d)
+  else if sget b.bank (holder, d) < amt then none
+  else some ({ b with bank := sadd (sadd (ssub b.bank (holder, d) amt) (transferMod, d) amt) (holder, resolved) amt },
+             resolved)
+
+/-- alias resolution of `IBCCoinToBaseCoin`.  `ManyToOne` answers "a denomination that has bank metadata is a base
+denomination"; inside a receive the transfer module has just written metadata for the voucher (`fresh`); otherwise
+metadata of the aliased voucher exists iff the channel is in `vmeta`.  With `aliasFirst` the registered alias wins. -/
+def resolve (cfg : Cfg) (vmeta : List Ch) (fresh : Bool) : Denom → Denom
+  | .vA l => if cfg.aliasFirst then .base else if fresh || vmeta.contains l then .vA l else .base
+  | d => d
 
 /-! ## fund -/
 
-def fundBal (b : Bal) (a : Addr) (t : Tok) (ch : Ch) (amt : Nat) : Bal :=
+def fundBal (b : Bal) (a : Addr) (t : Tok) (l : Ch) (amt : Nat) : Bal :=
   match t with
-  | .F => { b with fx := sadd b.fx a amt }
-  | .B => { b with erc := sadd b.erc (a, ch) amt,
-                   vch := sadd b.vch (transferMod, Tok.B, ch) amt,
-                   base := sadd b.base (erc20Mod, ch) amt }
-  | .X => b
+  | .A => { b with erc := sadd b.erc (a, ETok.base) amt,
+                   bank := sadd (sadd b.bank (transferMod, Denom.vA l) amt) (erc20Mod, Denom.base) amt }
+  | t => b.mint a (bankDenom t l) amt
 
 /-! ## receive -/
 
-/-- (1) the ICS-20 transfer application: un-escrow the native coin, or mint the voucher -/
-def recvApp (b : Bal) (ch : Ch) (t : Tok) (to : Addr) (amt : Nat) : Option Bal :=
-  if amt = 0 then none else
-  match t with
-  | .F => if sget b.fx (escrow ch) < amt then none
-          else some { b with fx := sadd (ssub b.fx (escrow ch) amt) to amt }
-  | t => some { b with vch := sadd b.vch (to, t, ch) amt }
+/-- (1) the ICS-20 transfer application: un-escrow a coin of this chain, or mint the voucher -/
+def recvApp (b : Bal) (l : Ch) (t : Tok) (to : Addr) (amt : Nat) : Option Bal :=
+  if amt = 0 then none
+  else if returning t then
+    if sget b.bank (escrow l, bankDenom t l) < amt then none
+    else some (b.move (bankDenom t l) (escrow l) to amt)
+  else some (b.mint to (bankDenom t l) amt)
 
-/-- `IBCCoinToEvm` for the registered voucher: voucher to the transfer module, base coin minted to the holder and
-converted (escrowed in the erc20 module, ERC-20 minted to the holder) -/
-def coinToEvm (b : Bal) (ch : Ch) (to : Addr) (amt : Nat) : Bal :=
-  { b with vch := sadd (ssub b.vch (to, Tok.B, ch) amt) (transferMod, Tok.B, ch) amt,
-           base := sadd b.base (erc20Mod, ch) amt,
-           erc := sadd b.erc (to, ch) amt }
+/-- (2) the conversion block of `Keeper.OnRecvPacket` -/
+def convStep (cfg : Cfg) (vmeta : List Ch) (b : Bal) (l : Ch) (t : Tok) (k : RKind) (to : Addr) (amt : Nat) : Bal × Bool :=
+  let d := bankDenom t l
+  if evalGuard cfg.recvGuard d then
+    if cfg.recvRequiresHex && k != .hex then (b, false)
+    else if !cfg.recvConverts then (b, true)
+    else
+      match toBaseCoin b d (resolve cfg vmeta true d) to amt with
+      | none => (b, false)
+      | some (b1, d1) =>
+        match convertCoin b1 d1 to to amt with
+        | none => (b1, false)
+        | some b2 => (b2, true)
+  else (b, true)
 
-/-- (2)+(3) the middleware keeper hook; returns the writes made so far and whether it succeeded -/
-def recvHook (b : Bal) (ch : Ch) (t : Tok) (k : RKind) (to : Addr) (amt : Nat) (m : Memo) : Bal × Bool :=
-  let conv : Bal × Bool :=
-    match t with
-    | .F => (b, true)
-    | .B => if k = .bech then (b, false) else (coinToEvm b ch to amt, true)
-    | .X => (b, false)      -- bech: "only support hex address"; hex: alias not found
-  if conv.2 then
-    match m with
-    | .none => (conv.1, true)
-    | .junk => (conv.1, true)
-    | .callok => ({ conv.1 with marker := conv.1.marker + 1 }, true)
-    | .callrev => (conv.1, false)
-  else conv
+/-- (3) the memo block: junk is ignored, a call runs as the derived sender -/
+def memoStep (cfg : Cfg) (b : Bal) (src dst : Ch) (m : Memo) (snd : Nat) : Bal × Bool :=
+  match m with
+  | .none => (b, true)
+  | .junk => (b, true)
+  | .callok => ({ b with marker := b.marker + 1,
+                         caller := some (cfg.memoChan.pick src dst, if cfg.memoSender then snd else 0) }, true)
+  | .callrev => (b, false)
 
-def recvBal (cfg : Cfg) (b : Bal) (ch : Ch) (t : Tok) (k : RKind) (to : Addr) (amt : Nat) (m : Memo) : Bal × Bool :=
-  match recvApp b ch t to amt with
+/-- the middleware keeper hook; returns the writes made so far and whether it succeeded.  `src` = the counterparty's
+channel id, `l` = ours -/
+def recvHook (cfg : Cfg) (vmeta : List Ch) (b : Bal) (src l : Ch) (t : Tok) (k : RKind) (to : Addr) (amt : Nat) (m : Memo)
+    (snd : Nat) : Bal × Bool :=
+  -- the hook recomputes the received denomination; a coin of this chain is recognised by the prefix `transfer/<src>/`
+  if returning t && !(cfg.recvRetChan.pick src l == some src) then (b, false)
+  else
+    let c := convStep cfg vmeta b l t k to amt
+    if !c.2 then c
+    else if cfg.recvMemoAfter then memoStep cfg c.1 src l m snd else c
+
+def recvBal (cfg : Cfg) (vmeta : List Ch) (b : Bal) (src l : Ch) (t : Tok) (k : RKind) (to : Addr) (amt : Nat) (m : Memo)
+    (snd : Nat) : Bal × Bool :=
+  if k = .bad then (b, false) else
+  match recvApp b l t to amt with
   | none => (b, false)
   | some b1 =>
     if !cfg.recvOrder then (b1, true) else     -- hook not wired after the app: nothing else happens
-    match recvHook b1 ch t k to amt m with
+    match recvHook cfg vmeta b1 src l t k to amt m snd with
     | (b2, true) => (b2, true)
     | (b2, false) => if cfg.recvDiscards then (b, false) else (b2, true)
 
 /-! ## send -/
 
-def sendBal (b : Bal) (ch : Ch) (sender : Addr) (t : Tok) (amt : Nat) : Option Bal :=
+/-- balances of an outbound transfer: `evm = true` through the crosschain precompile, else a plain `MsgTransfer` -/
+def sendBal (b : Bal) (l : Ch) (sender : Addr) (t : Tok) (amt : Nat) (evm : Bool) : Option Bal :=
   if amt = 0 then none else
-  match t with
-  | .F => if sget b.fx sender < amt then none
-          else some { b with fx := sadd (ssub b.fx sender amt) (escrow ch) amt }
-  | .B =>
-    if sget b.erc (sender, ch) < amt ∨ sget b.vch (transferMod, Tok.B, ch) < amt ∨ sget b.base (erc20Mod, ch) < amt then none
-    else some { b with erc := ssub b.erc (sender, ch) amt,
-                       base := ssub b.base (erc20Mod, ch) amt,
-                       vch := ssub b.vch (transferMod, Tok.B, ch) amt }
-  | .X => none
+  match t, evm with
+  | .F, _ => if sget b.bank (sender, Denom.fx) < amt then none else some (b.move .fx sender (escrow l) amt)
+  | .A, true =>
+    if sget b.erc (sender, ETok.base) < amt ∨ sget b.bank (transferMod, Denom.vA l) < amt ∨
+       sget b.bank (erc20Mod, Denom.base) < amt then none
+    else some { b with erc := ssub b.erc (sender, ETok.base) amt,
+                       bank := ssub (ssub b.bank (erc20Mod, Denom.base) amt) (transferMod, Denom.vA l) amt }
+  | .N, false => if sget b.bank (sender, Denom.nat) < amt then none else some (b.move .nat sender (escrow l) amt)
+  | .U, false => if sget b.bank (sender, Denom.unreg) < amt then none else some (b.move .unreg sender (escrow l) amt)
+  | _, _ => none
 
-def nextSeq (c : Ctl) (ch : Ch) : Seq := sget c.next ch + 1
+def nextSeq (c : Ctl) (l : Ch) : Seq := sget c.next l + 1
 
-def sendCtl (c : Ctl) (ch : Ch) (p : Pkt) (evm setRel : Bool) : Ctl :=
-  let seq := nextSeq c ch
-  { c with next := sset c.next ch seq,
-           commits := ((ch, seq), p) :: c.commits,
-           rel := if setRel then (ch, seq) :: c.rel else c.rel,
-           evmSent := if evm then ⟨ch, seq, p.sender, p.tok, p.amt⟩ :: c.evmSent else c.evmSent }
+def sendCtl (c : Ctl) (l : Ch) (p : Pkt) (key : Option (Ch × Seq)) : Ctl :=
+  let seq := nextSeq c l
+  { c with next := sset c.next l seq,
+           commits := ((l, seq), p) :: c.commits,
+           rel := match key with | some k => k :: c.rel | none => c.rel,
+           evmSent := if p.evm then ⟨l, seq, p.sender, p.tok, p.amt⟩ :: c.evmSent else c.evmSent }
+
+/-- the key `ibcTransfer` records for a transfer on `l` with sequence `seq` -/
+def sendKey (cfg : Cfg) (l : Ch) (seq : Seq) (t : Tok) (evm : Bool) : Option (Ch × Seq) :=
+  if evm && t != .F && cfg.sendSetsRel && cfg.sendKeyOwn then some (l, seq) else none
 
 /-! ## acknowledgement / timeout -/
 
@@ -278,84 +493,122 @@ def dropCommit (cs : List ((Ch × Seq) × Pkt)) (k : Ch × Seq) : List ((Ch × S
 
 def dropRel (rel : List (Ch × Seq)) (k : Ch × Seq) : List (Ch × Seq) := rel.filter (fun x => x ≠ k)
 
-/-- success acknowledgement (commitment already deleted by core) -/
-def ackOkCtl (cfg : Cfg) (c : Ctl) (k : Ch × Seq) : Ctl :=
+def dropRelOpt (rel : List (Ch × Seq)) : Option (Ch × Seq) → List (Ch × Seq)
+  | some k => dropRel rel k
+  | none => rel
+
+/-- success acknowledgement (commitment already deleted by core) of the packet committed under `k` -/
+def ackOkCtl (cfg : Cfg) (c : Ctl) (k : Ch × Seq) (p : Pkt) : Ctl :=
   { c with commits := dropCommit c.commits k,
-           rel := if cfg.ackOkRemoves then dropRel c.rel k else c.rel,
+           rel := if cfg.ackOkRemoves then dropRelOpt c.rel (keyOf cfg.ackOkChan cfg.ackOkSeq k.1 p.dst k.2) else c.rel,
            ackedOk := k :: c.ackedOk }
 
-/-- did IbcRefund's delete find the record -/
-def refundFound (cfg : Cfg) (c : Ctl) (k : Ch × Seq) : Bool := cfg.refundSees && c.rel.contains k
+/-- the key IbcRefund looks for, if its delete reports that it found a record -/
+def refundFound (cfg : Cfg) (c : Ctl) (k : Ch × Seq) (p : Pkt) : Option (Ch × Seq) :=
+  if cfg.refundSees then
+    match keyOf cfg.refundChan cfg.refundSeq k.1 p.dst k.2 with
+    | some k' => if c.rel.contains k' || !cfg.deleteReports then some k' else none
+    | none => none
+  else none
 
-/-- does IbcRefund reach and perform ConvertCoin -/
-def refundForm (cfg : Cfg) (c : Ctl) (k : Ch × Seq) : Bool :=
-  (refundFound cfg c k || !cfg.refundGuarded) && cfg.refundConverts
+/-- does IbcRefund reach ConvertCoin -/
+def refundForm (cfg : Cfg) (c : Ctl) (k : Ch × Seq) (p : Pkt) : Bool :=
+  ((refundFound cfg c k p).isSome || !cfg.refundGuarded) && cfg.refundConverts
 
 def refundCtl (cfg : Cfg) (c : Ctl) (k : Ch × Seq) (p : Pkt) : Ctl :=
   { c with commits := dropCommit c.commits k,
-           rel := if refundFound cfg c k then dropRel c.rel k else c.rel,
-           refundLog := ⟨k.1, k.2, p.sender, p.tok, p.amt, refundForm cfg c k⟩ :: c.refundLog }
+           rel := dropRelOpt c.rel (refundFound cfg c k p),
+           refundLog := ⟨k.1, k.2, p.sender, p.tok, p.amt, refundForm cfg c k p⟩ :: c.refundLog }
 
-/-- balances of a refund: transfer app (un-escrow / re-mint), `IBCCoinToBaseCoin`, then `IbcRefund`'s ConvertCoin when
-`form` -/
-def refundBal (b : Bal) (ch : Ch) (p : Pkt) (form : Bool) : Bal :=
-  match p.tok with
-  | .F => { b with fx := sadd (ssub b.fx (escrow ch) p.amt) p.sender p.amt }
-  | .X => { b with vch := sadd b.vch (p.sender, Tok.X, ch) p.amt }
-  | .B =>
-    let v1 := sadd b.vch (p.sender, Tok.B, ch) p.amt                                       -- transfer app re-mints
-    let v2 := sadd (ssub v1 (p.sender, Tok.B, ch) p.amt) (transferMod, Tok.B, ch) p.amt      -- voucher to the module
-    let base1 := sadd b.base (p.sender, ch) p.amt                                           -- base coin minted
-    if form then
-      { b with vch := v2,
-               base := sadd (ssub base1 (p.sender, ch) p.amt) (erc20Mod, ch) p.amt,
-               erc := sadd b.erc (p.sender, ch) p.amt }
-    else { b with vch := v2, base := base1 }
+/-- (1) the transfer application's refund: un-escrow a coin of this chain / re-mint the voucher -/
+def refundApp (b : Bal) (l : Ch) (p : Pkt) : Option Bal :=
+  if returning p.tok then
+    if sget b.bank (escrow l, bankDenom p.tok l) < p.amt then none
+    else some (b.move (bankDenom p.tok l) (escrow l) p.sender p.amt)
+  else some (b.mint p.sender (bankDenom p.tok l) p.amt)
 
-/-- error acknowledgement / timeout: the refund hook if it is wired, else only the commitment goes away -/
-def refundOrDrop (cfg : Cfg) (s : State) (ch : Ch) (seq : Seq) (p : Pkt) (refunds : Bool) : State :=
-  if refunds then
-    { bal := refundBal s.bal ch p (refundForm cfg s.ctl (ch, seq)), ctl := refundCtl cfg s.ctl (ch, seq) p }
-  else { s with ctl := { s.ctl with commits := dropCommit s.ctl.commits (ch, seq) } }
+/-- (2) `refundPacketTokenHook` -> `IBCCoinRefund` -> `IbcRefund`; `form` = IbcRefund reaches ConvertCoin -/
+def refundHook (cfg : Cfg) (vmeta : List Ch) (b : Bal) (l : Ch) (p : Pkt) (form : Bool) : Option Bal :=
+  let d := bankDenom p.tok l
+  match toBaseCoin b d (resolve cfg vmeta false d) p.sender p.amt with
+  | none => none
+  | some (b1, d1) =>
+    if form then convertCoin b1 d1 p.sender (if cfg.refundToSender then p.sender else 0) p.amt
+    else some b1
 
-def settleState (cfg : Cfg) (s : State) (ch : Ch) (seq : Seq) (p : Pkt) : Mode → State
-  | .ackOk => { s with ctl := ackOkCtl cfg s.ctl (ch, seq) }
-  | .ackErr => refundOrDrop cfg s ch seq p cfg.ackErrRefunds
-  | .timeout => refundOrDrop cfg s ch seq p cfg.timeoutRefunds
+/-- error acknowledgement / timeout.  `none` = a callback fails: the relayer's transaction is rolled back -/
+def refundState (cfg : Cfg) (s : State) (l : Ch) (seq : Seq) (p : Pkt) (refunds : Bool) : Option State :=
+  match refundApp s.bal l p with
+  | none => none
+  | some b1 =>
+    if refunds then
+      match refundHook cfg s.ctl.vmeta b1 l p (refundForm cfg s.ctl (l, seq) p) with
+      | none => none
+      | some b2 => some { bal := b2, ctl := refundCtl cfg s.ctl (l, seq) p }
+    else some { bal := b1, ctl := { s.ctl with commits := dropCommit s.ctl.commits (l, seq) } }
 
-def doneOut (s' : State) (ch : Ch) (p : Pkt) : Out :=
-  .done (sget s'.bal.erc (p.sender, ch)) (sget s'.bal.base (p.sender, ch)) (sget s'.bal.fx p.sender) s'.ctl.rel
+def settleState (cfg : Cfg) (s : State) (l : Ch) (seq : Seq) (p : Pkt) : Mode → Option State
+  | .ackOk => some { s with ctl := ackOkCtl cfg s.ctl (l, seq) p }
+  | .ackErr => refundState cfg s l seq p cfg.ackErrRefunds
+  | .timeout => refundState cfg s l seq p cfg.timeoutRefunds
 
-def settle (cfg : Cfg) (s : State) (ch : Ch) (seq : Seq) (mode : Mode) : State × Out :=
-  match lookup (ch, seq) s.ctl.commits with
+/-- the denomination / contract the sender of a packet is observed in -/
+def obsDenom (t : Tok) (l : Ch) : Denom := if t = .A then .base else bankDenom t l
+
+def doneOut (s' : State) (l : Ch) (p : Pkt) : Out :=
+  .done (match ercTokOf p.tok l with | some t => sget s'.bal.erc (p.sender, t) | none => 0)
+    (sget s'.bal.bank (p.sender, obsDenom p.tok l))
+    (if p.tok = .A then sget s'.bal.bank (p.sender, Denom.vA l) else 0)
+    (if p.tok = .A then 0 else sget s'.bal.bank (escrow l, bankDenom p.tok l))
+    (if p.tok = .A then sget s'.bal.bank (transferMod, Denom.vA l) else 0)
+    (supplyOf s'.bal.erc (ercTokOf p.tok l))
+    s'.ctl.rel
+
+def settle (cfg : Cfg) (s : State) (l : Ch) (seq : Seq) (mode : Mode) : State × Out :=
+  match lookup (l, seq) s.ctl.commits with
   | none => (s, .noop s.ctl.rel)
-  | some p => (settleState cfg s ch seq p mode, doneOut (settleState cfg s ch seq p mode) ch p)
+  | some p =>
+    match settleState cfg s l seq p mode with
+    | none => (s, .stuck s.ctl.rel)
+    | some s' => (s', doneOut s' l p)
 
 /-! ## the transition function -/
 
+def sentOut (b : Bal) (c : Ctl) (l : Ch) (sender : Addr) (t : Tok) (seq : Seq) : Out :=
+  .sent seq (match ercTokOf t l with | some et => sget b.erc (sender, et) | none => 0)
+    (sget b.bank (sender, obsDenom t l))
+    (if t = .A then 0 else sget b.bank (escrow l, bankDenom t l))
+    (if t = .A then sget b.bank (transferMod, Denom.vA l) else 0)
+    c.rel
+
+def doSend (cfg : Cfg) (s : State) (l : Ch) (sender : Addr) (t : Tok) (amt : Nat) (evm : Bool) : State × Out :=
+  match sendBal s.bal l sender t amt evm with
+  | none => (s, .fail)
+  | some b =>
+    let seq := nextSeq s.ctl l
+    let c := sendCtl s.ctl l ⟨sender, t, amt, evm, cpOf s.ctl l⟩ (sendKey cfg l seq t evm)
+    ({ bal := b, ctl := c }, sentOut b c l sender t seq)
+
 def stepWith (cfg : Cfg) (s : State) : Op → State × Out
   | .reset => (init, .ok)
-  | .fund a t ch amt =>
-    if t = .X then (s, .badOp) else ({ s with bal := fundBal s.bal a t ch amt }, .ok)
-  | .recv ch t k to amt m =>
-    let r := recvBal cfg s.bal ch t k to amt m
+  | .chan l r => ({ s with ctl := { s.ctl with cp := (l, r) :: s.ctl.cp.filter (fun p => p.1 != l) } }, .ok)
+  | .vmeta l => ({ s with ctl := { s.ctl with vmeta := l :: s.ctl.vmeta } }, .ok)
+  | .migrate => ({ s with ctl := { s.ctl with vmeta := s.ctl.cp.map (·.1) ++ s.ctl.vmeta } }, .ok)
+  | .seqset l n =>
+    if sget s.ctl.next l + 1 < n then ({ s with ctl := { s.ctl with next := sset s.ctl.next l (n - 1) } }, .ok) else (s, .ok)
+  | .fund a t l amt =>
+    if t = .V ∨ t = .X then (s, .badOp) else ({ s with bal := fundBal s.bal a t l amt }, .ok)
+  | .recv l t k to amt m snd =>
+    let r := recvBal cfg s.ctl.vmeta s.bal (cpOf s.ctl l) l t k to amt m snd
     let s' : State := if r.2 then { s with bal := r.1 } else s      -- error ack: IBC core discards the cache
     let b := s'.bal
-    (s', .recv r.2 (sget b.fx to) (if t = .F then 0 else sget b.vch (to, t, ch)) (sget b.base (to, ch))
-      (sget b.erc (to, ch)) b.marker)
-  | .send ch sender t amt =>
-    match sendBal s.bal ch sender t amt with
-    | none => (s, .fail)
-    | some b =>
-      let c := sendCtl s.ctl ch ⟨sender, t, amt⟩ true (t != .F && cfg.sendSetsRel)
-      ({ bal := b, ctl := c }, .sent (nextSeq s.ctl ch) (sget b.erc (sender, ch)) (sget b.fx sender) c.rel)
-  | .csend ch sender amt =>
-    match sendBal s.bal ch sender .F amt with
-    | none => (s, .fail)
-    | some b =>
-      let c := sendCtl s.ctl ch ⟨sender, .F, amt⟩ false false
-      ({ bal := b, ctl := c }, .sent (nextSeq s.ctl ch) (sget b.erc (sender, ch)) (sget b.fx sender) c.rel)
-  | .settle ch seq mode => settle cfg s ch seq mode
+    let d := bankDenom t l
+    (s', .recv r.2 (sget b.bank (to, d)) (match ercTokOf t l with | some et => sget b.erc (to, et) | none => 0)
+      (if returning t then sget b.bank (escrow l, d) else 0) (if returning t then 0 else sget b.bank (transferMod, d))
+      (supplyOf b.erc (ercTokOf t l)) b.marker b.caller)
+  | .send l sender t amt => doSend cfg s l sender t amt true
+  | .csend l sender t amt => doSend cfg s l sender t amt false
+  | .settle l seq mode => settle cfg s l seq mode
   | .bad => (s, .badOp)
 
 def step : State → Op → State × Out := stepWith genCfg
@@ -366,41 +619,54 @@ def run (s : State) (ops : List Op) : State := runWith genCfg s ops
 /-! ## line protocol -/
 
 def parseTok : String → Option Tok
-  | "F" => some .F | "B" => some .B | "X" => some .X | _ => none
+  | "F" => some .F | "N" => some .N | "U" => some .U | "A" => some .A | "V" => some .V | "X" => some .X | _ => none
 
 def parseMemo : String → Option Memo
   | "none" => some .none | "junk" => some .junk | "callok" => some .callok | "callrev" => some .callrev | _ => none
 
 def parseKind : String → Option RKind
-  | "hex" => some .hex | "bech" => some .bech | _ => none
+  | "hex" => some .hex | "bech" => some .bech | "bad" => some .bad | _ => none
 
 def parseOp (line : String) : Op :=
   match Util.words line with
   | "reset" :: _ => .reset
-  | ["fund", a, t, ch, amt] =>
-    match a.toNat?, parseTok t, ch.toNat?, amt.toNat? with
-    | some a, some t, some ch, some amt => .fund a t ch amt
-    | _, _, _, _ => .bad
-  | ["recv", ch, t, k, to, amt, m] =>
-    match ch.toNat?, parseTok t, parseKind k, to.toNat?, amt.toNat?, parseMemo m with
-    | some ch, some t, some k, some to, some amt, some m => .recv ch t k to amt m
-    | _, _, _, _, _, _ => .bad
-  | ["send", ch, a, t, amt] =>
-    match ch.toNat?, a.toNat?, parseTok t, amt.toNat? with
-    | some ch, some a, some t, some amt => .send ch a t amt
-    | _, _, _, _ => .bad
-  | ["csend", ch, a, amt] =>
-    match ch.toNat?, a.toNat?, amt.toNat? with
-    | some ch, some a, some amt => .csend ch a amt
-    | _, _, _ => .bad
-  | ["ack", ch, seq, r] =>
-    match ch.toNat?, seq.toNat? with
-    | some ch, some seq =>
-      if r == "ok" then .settle ch seq .ackOk else if r == "err" then .settle ch seq .ackErr else .bad
+  | ["chan", l, r] =>
+    match l.toNat?, r.toNat? with
+    | some l, some r => .chan l r
     | _, _ => .bad
-  | ["timeout", ch, seq] =>
-    match ch.toNat?, seq.toNat? with
-    | some ch, some seq => .settle ch seq .timeout
+  | ["migrate"] => .migrate
+  | ["meta", l] =>
+    match l.toNat? with
+    | some l => .vmeta l
+    | _ => .bad
+  | ["seq", l, n] =>
+    match l.toNat?, n.toNat? with
+    | some l, some n => .seqset l n
+    | _, _ => .bad
+  | ["fund", a, t, l, amt] =>
+    match a.toNat?, parseTok t, l.toNat?, amt.toNat? with
+    | some a, some t, some l, some amt => .fund a t l amt
+    | _, _, _, _ => .bad
+  | ["recv", l, t, k, to, amt, m, snd] =>
+    match l.toNat?, parseTok t, parseKind k, to.toNat?, amt.toNat?, parseMemo m, snd.toNat? with
+    | some l, some t, some k, some to, some amt, some m, some snd => .recv l t k to amt m snd
+    | _, _, _, _, _, _, _ => .bad
+  | ["send", l, a, t, amt] =>
+    match l.toNat?, a.toNat?, parseTok t, amt.toNat? with
+    | some l, some a, some t, some amt => .send l a t amt
+    | _, _, _, _ => .bad
+  | ["csend", l, a, t, amt] =>
+    match l.toNat?, a.toNat?, parseTok t, amt.toNat? with
+    | some l, some a, some t, some amt => .csend l a t amt
+    | _, _, _, _ => .bad
+  | ["ack", l, seq, r] =>
+    match l.toNat?, seq.toNat? with
+    | some l, some seq =>
+      if r == "ok" then .settle l seq .ackOk else if r == "err" then .settle l seq .ackErr else .bad
+    | _, _ => .bad
+  | ["timeout", l, seq] =>
+    match l.toNat?, seq.toNat? with
+    | some l, some seq => .settle l seq .timeout
     | _, _ => .bad
   | _ => .bad
 
@@ -410,28 +676,61 @@ def showRel (rel : List (Ch × Seq)) : String :=
   if rel.isEmpty then "-" else
   ",".intercalate ((rel.mergeSort relLe).map fun p => toString p.1 ++ "/" ++ toString p.2)
 
+def showCaller : Option (Option Ch × Nat) → String
+  | none => "-"
+  | some (some c, snd) => toString c ++ "/" ++ toString snd
+  | some (none, _) => "?"
+
 def render : Out → String
   | .ok => "ok"
-  | .recv a fx v b e m =>
-    "ack=" ++ (if a then "ok" else "err") ++ " fx=" ++ toString fx ++ " v=" ++ toString v ++ " b=" ++ toString b ++
-      " e=" ++ toString e ++ " m=" ++ toString m
-  | .sent seq e fx rel => "ok seq=" ++ toString seq ++ " e=" ++ toString e ++ " fx=" ++ toString fx ++ " rel=" ++ showRel rel
+  | .recv a bk e esc tm sup m cs =>
+    "ack=" ++ (if a then "ok" else "err") ++ " bk=" ++ toString bk ++ " e=" ++ toString e ++ " esc=" ++ toString esc ++
+      " tm=" ++ toString tm ++ " sup=" ++ toString sup ++ " m=" ++ toString m ++ " cs=" ++ showCaller cs
+  | .sent seq e bk esc tm rel =>
+    "ok seq=" ++ toString seq ++ " e=" ++ toString e ++ " bk=" ++ toString bk ++ " esc=" ++ toString esc ++
+      " tm=" ++ toString tm ++ " rel=" ++ showRel rel
   | .fail => "fail"
   | .noop rel => "noop rel=" ++ showRel rel
-  | .done e b fx rel => "done e=" ++ toString e ++ " b=" ++ toString b ++ " fx=" ++ toString fx ++ " rel=" ++ showRel rel
+  | .stuck rel => "stuck rel=" ++ showRel rel
+  | .done e bk v esc tm sup rel =>
+    "done e=" ++ toString e ++ " bk=" ++ toString bk ++ " v=" ++ toString v ++ " esc=" ++ toString esc ++
+      " tm=" ++ toString tm ++ " sup=" ++ toString sup ++ " rel=" ++ showRel rel
   | .badOp => "bad-op"
 
 def stepLine (s : State) (line : String) : State × String :=
   let r := step s (parseOp line)
   (r.1, render r.2)
 
-/-! ## the memo-call sender (`IntermediateSender`) -/
+/-! ## text: `fmt.Sprintf` with the verbs `%s` and `%d` -/
+
+inductive FArg where
+  | s (x : List Char)
+  | d (n : Nat)
+
+def FArg.text : FArg → List Char
+  | .s x => x
+  | .d n => Nat.toDigits 10 n
+
+/-- `fmt.Sprintf` restricted to the verbs `%s` and `%d` -/
+def sprintfA : List Char → List FArg → List Char
+  | [], _ => []
+  | '%' :: 's' :: rest, a :: as => a.text ++ sprintfA rest as
+  | '%' :: 'd' :: rest, a :: as => a.text ++ sprintfA rest as
+  | c :: rest, as => c :: sprintfA rest as
 
 /-- `fmt.Sprintf` restricted to the `%s` verb -/
 def sprintf : List Char → List (List Char) → List Char
   | [], _ => []
   | '%' :: 's' :: rest, a :: as => a ++ sprintf rest as
   | c :: rest, as => c :: sprintf rest as
+
+/-- the text of the relation key `GetIBCTransferKey(channel, sequence)` (without the one-byte store prefix), with the
+format string and the argument order as generated -/
+def relKeyText (channel : List Char) (sequence : Nat) : List Char :=
+  sprintfA Gen.C19.relationKeyFmt.toList
+    (Gen.C19.relationKeyFmtArgs.map fun a => if a == "#0" then FArg.s channel else if a == "#1" then FArg.d sequence else FArg.s [])
+
+/-! ## the memo-call sender (`IntermediateSender`) -/
 
 /-- value of a Go argument expression of `IntermediateSender` -/
 def argVal (port channel pfx sender : List Char) (name : String) : List Char :=
@@ -450,6 +749,29 @@ def senderPrefix (port channel : List Char) : List Char :=
 def intermediateSender {α : Type} (H : List Char → List Char → α) (port channel sender : List Char) : α :=
   match Gen.C19.intermediateSenderHashArgs.map (argVal port channel (senderPrefix port channel) sender) with
   | [typ, key] => H typ key
+  | _ => H [] []
+
+/-- an inbound packet as far as the memo-call sender depends on it -/
+structure InPkt where
+  srcPort : List Char
+  srcChannel : List Char      -- the COUNTERPARTY's channel id
+  dstPort : List Char
+  dstChannel : List Char      -- OUR channel id
+  sender : List Char
+
+/-- value of an expression of `Keeper.OnRecvPacket`'s scope that flows into `IntermediateSender` -/
+def inPktVal (p : InPkt) (e : String) : List Char :=
+  if e == "packet.SourcePort" || e == "packet.GetSourcePort()" then p.srcPort
+  else if e == "packet.SourceChannel" || e == "packet.GetSourceChannel()" then p.srcChannel
+  else if e == "packet.DestinationPort" || e == "packet.GetDestPort()" then p.dstPort
+  else if e == "packet.DestinationChannel" || e == "packet.GetDestChannel()" then p.dstChannel
+  else if e == "data.Sender" then p.sender
+  else []
+
+/-- the sender a memo call of packet `p` runs as: `IntermediateSender` applied to the generated argument flow -/
+def memoCallSender {α : Type} (H : List Char → List Char → α) (p : InPkt) : α :=
+  match Gen.C19.memoSenderArgs.map (inPktVal p) with
+  | [port, channel, sender] => intermediateSender H port channel sender
   | _ => H [] []
 
 end FxVerif.Model.C19
